@@ -41,6 +41,10 @@ func (m *Dense) Product(factors ...Matrix) {
 	}
 
 	p := newMultiplier(m, factors)
+	for _, f := range factors {
+		fU, _ := untransposeExtract(f)
+		m.checkOverlapMatrix(fU)
+	}
 	p.optimize()
 	result := p.multiply()
 	m.reuseAsNonZeroed(result.Dims())
